@@ -1,7 +1,7 @@
 import NA.Spec.Gate
 import NA.Gen.CallGraph
 /-!
-# C11, layer 2b — writer sites found by TYPE (translate/callgraph/writers.go)
+# C11, layer 2b — writer sites found by TYPE (translate/callgraph/writers.go, leaves.go)
 
 Every call in the module that hands data to a value of a connection / client type (goexpect,
 net/http client / transport / request, os/exec, net dialer) or that opens a connection or
@@ -12,15 +12,32 @@ A request that is assembled in a helper is thus classified at the call that deci
 a device-I/O function the translator does not know is emitted as `unclassified` and accepted by
 nothing here.
 
+What a row is compared with is **meaning, not spelling**: a row is keyed by the package it stands
+in and by its *sinks* (the foreign device-I/O functions, with argument index, the data finally
+reaches — `GExpect.Send#0` is "a line on the console", `http.NewRequest#0` "the method of an NSX
+request", …), never by the name of a function of the module; a non-constant argument is described
+by the *leaves* of its data flow (constants with adjacent ones merged, parameters, foreign API
+calls, device replies, data of the module's source packages), with locals followed through all
+their definitions and helpers of the module expanded — renaming a local, a helper or a carrier,
+extracting or inlining a helper, `Sprintf` ↔ `+`, moving a statement do not change a row; a new
+constant, a new foreign call, a new source of data, another sink do.
+
 (Own file, so that edits of `NA/Props/C11.lean` that follow the shared C06 model do not touch it.)
 -/
 namespace NA.C11W
 open NA.Gate NA.Gate.Spec NA.Gen
 
-/-- functions of `pkg/console` and `cisco` whose first argument is the line sent -/
-def lineCarriers : List String :=
-  ["(*console.Conn).GetCmdOutput", "(*console.Conn).SendCmd", "(*console.Conn).IssueCmd",
-   "(*console.Conn).Send", "(*cisco.State).LoginEnable$1"]
+/-! sinks -/
+def kSend := "(*github.com/tailscale/goexpect.GExpect).Send#0"
+def kSpawn := "github.com/tailscale/goexpect.SpawnWithArgs#0"
+def kGet := "(*net/http.Client).Get#0"
+def kDo := "(*net/http.Client).Do#0"
+def kPostUrl := "(*net/http.Client).PostForm#0"
+def kPostForm := "(*net/http.Client).PostForm#1"
+def kReqMethod := "net/http.NewRequest#0"
+def kReqUrl := "net/http.NewRequest#1"
+def kReqBody := "net/http.NewRequest#2"
+def kDial := "(*net.Dialer).Dial#0"
 
 def nsxReadPaths : List String :=
   ["/policy/api/v1/infra/domains/default/gateway-policies", "/policy/api/v1/infra/services",
@@ -35,71 +52,76 @@ def lineAllowed (pkg line : String) : Bool :=
   | "linux" => harmless .linux (.lit line)
   | _ => false
 
-/-- a constant data argument: what the specification says about it -/
-def wLitAllowed (s : CallGraph.WSite) : Bool :=
-  if lineCarriers.contains s.callee then s.arg == 0 && lineAllowed s.pkg s.text
-  else if s.callee == "(*nsx.State).sendRequest" then
-    (s.arg == 0 && s.text == "GET") || (s.arg == 1 && nsxReadPaths.contains s.text) || (s.arg == 2 && s.text == "nil")
-  else if s.callee == "(*nsx.State).getRawJSON" then s.arg == 0 && nsxReadPaths.contains s.text
-  else if s.callee == "(*panos.State).httpPrefixGetLog" then s.arg == 0 && harmless .panos (.lit s.text)
+/-- a constant that reaches sink `k` from package `pkg`: what the specification says about it.
+`Do#0` is the request assembled by `http.NewRequest`: a constant may reach it only as method,
+path or body of that request, and is judged there. -/
+def sinkLitOk (pkg : String) (sinks : List String) (k text : String) : Bool :=
+  if k == kSend then lineAllowed pkg text
+  else if k == kReqMethod then pkg == "nsx" && text == "GET"
+  else if k == kReqUrl then pkg == "nsx" && nsxReadPaths.contains text
+  else if k == kReqBody then pkg == "nsx" && text == "nil"
+  else if k == kDo then sinks.contains kReqMethod || sinks.contains kReqUrl || sinks.contains kReqBody
+  else if k == kGet then pkg == "panos" && harmless .panos (.lit text)
   else false
 
-/-- The non-constant data arguments on the compare path, each justified: (enclosing function,
-callee, argument index, expression with the statements that define its locals). -/
-def wExprAllowed : List (String × String × Nat × String) := [
-  -- user name and password from the credentials file
-  ("(*asa.State).LoadDevice", "console.GetSSHConn", 1, "cfg.GetUserPass(codefiles.GetHostname(spocFile))"),
-  ("(*asa.State).LoadDevice", "(*cisco.State).LoginEnable", 0, "cfg.GetUserPass(codefiles.GetHostname(spocFile))"),
-  ("(*ios.State).LoadDevice", "console.GetSSHConn", 1, "cfg.GetUserPass(codefiles.GetHostname(spocFile))"),
-  ("(*ios.State).LoadDevice", "(*cisco.State).LoginEnable", 0, "cfg.GetUserPass(codefiles.GetHostname(spocFile))"),
-  ("(*linux.State).LoadDevice", "console.GetSSHConn", 1, "cfg.GetUserPass(codefiles.GetHostname(spocFile))"),
-  ("(*linux.State).LoadDevice", "(*linux.State).loginEnable", 0, "cfg.GetUserPass(codefiles.GetHostname(spocFile))"),
-  -- the one place where a line is written to the expect connection
-  ("(*console.Conn).Send", "(*github.com/tailscale/goexpect.GExpect).Send", 0, "cmd + \"\\n\""),
+/-- a constant data argument: harmless at every sink it reaches -/
+def wLitAllowed (s : CallGraph.WSite) : Bool :=
+  !s.sinks.isEmpty && s.sinks.all fun k => sinkLitOk s.pkg s.sinks k s.text
+
+def credentials := ["param", "src codefiles", "src program"]
+def deviceAddr := ["call os.Getenv", "const \"SIMULATE_ROUTER\"", "const \"https://\"", "param"]
+
+/-- The non-constant data arguments on the compare path, each justified: (package, sinks the data
+may reach, leaves of the data flow). -/
+def wFlowAllowed : List (String × List String × List String) := [
+  -- user name (ssh command line) and password (answer to the password prompt) of the device, from
+  -- the settings / the credentials file, looked up by the name of the code file
+  ("asa", [kSpawn, kSend], credentials), ("ios", [kSpawn, kSend], credentials), ("linux", [kSpawn, kSend], credentials),
+  -- the one place where a line is written to the expect connection: the parameter and a newline
+  ("console", [kSend], ["const \"\\n\"", "param"]),
   -- Linux: grep of the configured regexp in /etc/issue
-  ("(*linux.State).checkBanner", "(*console.Conn).GetCmdOutput", 0,
-    "\"grep '\" + cfg.CheckBanner.String() + \"' /etc/issue\""),
-  -- NSX: GET of one gateway policy / of the next page; the login form; the request is assembled here
-  ("(*nsx.State).LoadDevice", "(*nsx.State).sendRequest", 1,
-    "path + \"/\" + result.Id where path := \"/policy/api/v1/infra/domains/default/gateway-policies\"; path = \"/policy/api/v1/infra/services\"; path = \"/policy/api/v1/infra/domains/default/groups\""),
-  ("(*nsx.State).LoadDevice$1", "(*net/http.Client).PostForm", 0, "s.prefix + \"/api/session/create\""),
-  ("(*nsx.State).LoadDevice$1", "(*net/http.Client).PostForm", 1,
-    "v where v := url.Values{}; v.Set(\"j_username\", user); v.Set(\"j_password\", \"xxx\"); v.Set(\"j_password\", pass)"),
-  ("(*nsx.State).getRawJSON", "(*nsx.State).sendRequest", 1,
-    "path + \"?cursor=\" + cursor where cursor string; results struct { Cursor string Results []json.RawMessage }; cursor = results.Cursor"),
-  ("(*nsx.State).sendRequest", "net/http.NewRequest", 1, "s.prefix + path"),
-  ("(*nsx.State).sendRequest", "(*net/http.Client).Do", 0, "http.NewRequest(method, s.prefix+path, body)"),
-  -- PAN-OS: address of the device; the key generation request
-  ("(*panos.State).LoadDevice$1", "(*panos.State).getAPIKey", 0, "httpdevice.GetHTTPClient(cfg, ip)"),
-  ("(*panos.State).getAPIKey", "(*panos.State).httpGet", 0,
-    "base.String() where base, err := url.Parse(addr); base.Path += \"api\"; params := url.Values{}; params.Set(\"type\", \"keygen\"); params.Set(\"user\", user); params.Set(\"password\", pass); base.RawQuery = params.Encode()"),
+  ("linux", [kSend], ["call (*regexp.Regexp).String", "const \"' /etc/issue\"", "const \"grep '\"", "src program"]),
+  -- NSX: GET of one gateway policy (id from the device's own list) / of the next page (cursor from
+  -- the device's answer) under the three read-only paths
+  ("nsx", [kDo, kReqUrl], ["const \"/\"", "const \"/policy/api/v1/infra/domains/default/gateway-policies\"",
+    "const \"/policy/api/v1/infra/domains/default/groups\"", "const \"/policy/api/v1/infra/services\"",
+    "reply (*net/http.Client).Do"]),
+  ("nsx", [kDo, kReqUrl], ["const \"?cursor=\"", "param", "reply (*net/http.Client).Do"]),
+  -- NSX: the login — URL of the session service at the device's address, form with user and password
+  ("nsx", [kPostUrl], ["call os.Getenv", "const \"/api/session/create\"", "const \"SIMULATE_ROUTER\"", "const \"https://\"", "param"]),
+  ("nsx", [kPostForm], ["call (net/url.Values).Set", "const \"j_password\"", "const \"j_username\"", "const \"xxx\"", "param"]),
+  -- NSX: every request = device address + path parameter; the assembled request with the session
+  -- token of the login answer and the content type
+  ("nsx", [kReqUrl], deviceAddr),
+  ("nsx", [kDo], ["call (net/http.Header).Set", "const \"application/json\"", "const \"content-type\"",
+    "const \"x-xsrf-token\"", "reply (*net/http.Client).PostForm", "reply net/http.NewRequest"]),
+  -- PAN-OS: address of the device; the key generation request; every other request = address,
+  -- the API key the device answered, the query parameter
+  ("panos", [kGet], deviceAddr),
+  ("panos", [kGet], ["call (*net/url.URL).String", "call (net/url.Values).Encode", "call (net/url.Values).Set",
+    "call net/url.Parse", "const \"api\"", "const \"keygen\"", "const \"password\"", "const \"type\"", "const \"user\"",
+    "param", "set Path", "set RawQuery"]),
+  ("panos", [kGet], ["call os.Getenv", "const \"&\"", "const \"/api/?key=\"", "const \"SIMULATE_ROUTER\"",
+    "const \"https://\"", "param", "reply (*net/http.Client).Get"]),
   -- the ssh process (or the simulator) and the TCP dialer of the HTTP client
-  ("console.GetSSHConn", "github.com/tailscale/goexpect.SpawnWithArgs", 0,
-    "cmd where ip, pdp, err := codefiles.GetIPPDP(spocFile); cmd := []string{\"ssh\", \"-l\", user, ip}; cmd = append(cmd, []string{\"-o\", \"ProxyCommand ssh \" + pdp + \" -W %h:%p\"}...); simul := os.Getenv(\"SIMULATE_ROUTER\"); cmd = strings.Fields(simul)"),
-  ("httpdevice.GetHTTPClient", "(*net.Dialer).Dial", 0,
-    "method value of (&net.Dialer{ Timeout: time.Duration(cfg.LoginTimeout) * time.Second, })"),
-  -- address, user, password handed to the login closure of PAN-OS / NSX
-  ("httpdevice.TryReachableHTTPLogin", "(*nsx.State).LoadDevice$1", 1,
-    "ipList[i] where nameList, ipList, err := getHostnameIPList(fname)"),
-  ("httpdevice.TryReachableHTTPLogin", "(*nsx.State).LoadDevice$1", 2, "cfg.GetUserPass(name)"),
-  ("httpdevice.TryReachableHTTPLogin", "(*nsx.State).LoadDevice$1", 3, "cfg.GetUserPass(name)"),
-  ("httpdevice.TryReachableHTTPLogin", "(*panos.State).LoadDevice$1", 1,
-    "ipList[i] where nameList, ipList, err := getHostnameIPList(fname)"),
-  ("httpdevice.TryReachableHTTPLogin", "(*panos.State).LoadDevice$1", 2, "cfg.GetUserPass(name)"),
-  ("httpdevice.TryReachableHTTPLogin", "(*panos.State).LoadDevice$1", 3, "cfg.GetUserPass(name)")]
+  ("console", [kSpawn], ["call os.Getenv", "call strings.Fields", "const \" -W %h:%p\"", "const \"-l\"", "const \"-o\"",
+    "const \"ProxyCommand ssh \"", "const \"SIMULATE_ROUTER\"", "const \"ssh\"", "param", "src codefiles"]),
+  ("httpdevice", [kDial], ["method-value"]),
+  -- address, user, password handed to the login function of PAN-OS / NSX
+  ("httpdevice", [kPostUrl, kPostForm, kGet], ["src codefiles"]),
+  ("httpdevice", [kPostUrl, kPostForm, kGet], ["src codefiles", "src program"])]
 
 def wSiteAllowed (s : CallGraph.WSite) : Bool :=
   if s.kind == "lit" then wLitAllowed s
   else if s.kind == "param" then CallGraph.carriers.any fun c => c.2.2 == s.pidx && c.2.1 == s.owner
-  else if s.kind == "expr" then
-    -- numbers first, the long text last: string comparison is what the kernel is slow at
-    s.cls != "unclassified" &&
-      wExprAllowed.any fun e => e.2.2.1 == s.arg && e.1 == s.fn && e.2.1 == s.callee && e.2.2.2 == s.text
+  else if s.kind == "flow" then
+    s.cls != "unclassified" && !s.sinks.isEmpty &&
+      wFlowAllowed.any fun e => e.1 == s.pkg && s.sinks.all e.2.1.contains && e.2.2 == s.leaves
   else false
 
 /-- **Every data argument of every call that can write to the device connection, in a function
 reachable from compare, is a read-only constant, a parameter that is checked at every caller, or
-one of the enumerated expressions** — found by type, also through helpers. -/
+data of one of the enumerated compositions** — found by type, also through helpers. -/
 theorem writers_by_type_readonly :
     CallGraph.writerSites.all (fun s => !(decide (s.node < CallGraph.n)) || wSiteAllowed s) = true := by
   decide +kernel
@@ -115,31 +137,48 @@ theorem carrier_calls_covered :
   decide +kernel
 
 /-- The calls that touch the connection itself (not through a carrier) and are reachable from
-compare are exactly these — a new one (another client method, an `exec`, a second place that
-writes to the expect connection) changes the list.  None is unclassified; the only method value
-is the TCP dialer of the HTTP transport. -/
+compare, by package, foreign function, class and **number of call sites** — a new one (another
+client method, an `exec`, a second place that writes to the expect connection) changes a count or
+is not in the list.  None is unclassified; the only method value is the TCP dialer of the HTTP
+transport. -/
+def ioExpected : List ((String × String × String) × Nat) := [
+  (("console", "(*github.com/tailscale/goexpect.GExpect).Send", "send"), 1),
+  (("nsx", "(*net/http.Client).PostForm", "send"), 1),
+  (("nsx", "net/http.NewRequest", "assemble"), 1),
+  (("nsx", "(*net/http.Client).Do", "send"), 1),
+  (("panos", "(*net/http.Client).Get", "send"), 1),
+  (("console", "github.com/tailscale/goexpect.SpawnWithArgs", "connect"), 1),
+  (("httpdevice", "(*net.Dialer).Dial", "method-value"), 1)]
+
+def ioReachable : List (String × String × String) :=
+  (CallGraph.ioCalls.filter fun c => decide (c.1 < CallGraph.n)).map (·.2)
+
 theorem device_io_under_compare :
-    ((CallGraph.writerSites.filter fun s =>
-        decide (s.node < CallGraph.n) && !(s.cls == "carrier" || s.cls == "carrier-dyn")).map
-      fun s => (s.fn, s.callee, s.cls)).eraseDups =
-      [("(*console.Conn).Send", "(*github.com/tailscale/goexpect.GExpect).Send", "send"),
-       ("(*nsx.State).LoadDevice$1", "(*net/http.Client).PostForm", "send"),
-       ("(*nsx.State).sendRequest", "net/http.NewRequest", "assemble"),
-       ("(*nsx.State).sendRequest", "(*net/http.Client).Do", "send"),
-       ("(*panos.State).httpGet", "(*net/http.Client).Get", "send"),
-       ("console.GetSSHConn", "github.com/tailscale/goexpect.SpawnWithArgs", "connect"),
-       ("httpdevice.GetHTTPClient", "(*net.Dialer).Dial", "method-value")] := by
+    ioReachable.all (fun c => ioExpected.any (·.1 == c)) = true ∧
+    ioExpected.all (fun e => ioReachable.count e.1 == e.2) = true := by
   decide +kernel
 
-/-- Positive control: the same check rejects the apply side of every backend (and `scp`). -/
+/-- every call of the inventory has its rows among the writer sites (the two lists are one extraction) -/
+theorem io_calls_have_rows :
+    CallGraph.ioCalls.all (fun c => CallGraph.writerSites.any fun s =>
+      s.node == c.1 && s.callee == c.2.2.1 && s.cls == c.2.2.2) = true := by
+  decide +kernel
+
+/-- Positive control: the same check rejects a row outside the compare path in each of the five
+backend packages (their `ApplyCommands` / `cmd` / `writeMem` / `putScp` side). -/
 theorem writers_check_rejects_apply :
-    ["(*asa.State).ApplyCommands", "(*ios.State).ApplyCommands$1", "(*linux.State).ApplyCommands",
-     "(*nsx.State).ApplyCommands", "(*panos.State).ApplyCommands$2", "(*ios.State).writeMem",
-     "(*linux.State).putScp"].all (fun f =>
-        CallGraph.writerSites.any fun s => s.fn == f && !wSiteAllowed s) = true := by
+    ["asa", "ios", "linux", "nsx", "panos"].all (fun p =>
+        CallGraph.writerSites.any fun s => s.pkg == p && decide (CallGraph.n ≤ s.node) && !wSiteAllowed s) = true := by
+  decide +kernel
+
+/-- non-vacuity: rows of every kind are reachable from compare -/
+example :
+    ["lit", "param", "flow"].all (fun k =>
+      CallGraph.writerSites.any fun s => decide (s.node < CallGraph.n) && s.kind == k) = true := by
   decide +kernel
 
 def obligations : List Lean.Name := [
-  ``writers_by_type_readonly, ``carrier_calls_covered, ``device_io_under_compare, ``writers_check_rejects_apply]
+  ``writers_by_type_readonly, ``carrier_calls_covered, ``device_io_under_compare, ``io_calls_have_rows,
+  ``writers_check_rejects_apply]
 
 end NA.C11W
